@@ -399,6 +399,36 @@ fn base_graph_for_tables() -> (ModuleGraph, Vec<ModuleSpecifier>) {
   (g, specs)
 }
 
+/// Stale lockfile redirects for a world: a specifier the loader redirects to (and serves directly as a
+/// module) is listed as a redirect source leading to another module.  No seed starts where another
+/// ends: a lockfile whose redirects form a cycle is a different input (section (b) covers every cyclic
+/// table; finding F11).
+pub fn stale_seeds(w: &World, wr: &mut Rng) -> Vec<(String, String)> {
+  let is_plain_module = |i: usize| matches!(&w.resp[i], Resp::Module { final_spec, .. } if *final_spec == i);
+  let mut seeds: Vec<(String, String)> = vec![];
+  for (i, r) in w.resp.iter().enumerate() {
+    // the loader redirects to t, or answers another request with a module whose final specifier is t
+    let t = match r {
+      Resp::Redirect(t) => Some(t),
+      Resp::Module { final_spec, .. } if *final_spec != i => Some(final_spec),
+      _ => None,
+    };
+    if let Some(t) = t {
+      if is_plain_module(*t) && wr.chance(1, 2) {
+        let cands: Vec<usize> = (0..w.specs.len()).filter(|u| *u != *t && is_plain_module(*u)).collect();
+        if !cands.is_empty() {
+          let u = cands[wr.below(cands.len())];
+          let (ts, us) = (w.specs[*t].to_string(), w.specs[u].to_string());
+          if !seeds.iter().any(|(a, b)| *a == ts || *a == us || *b == ts) {
+            seeds.push((ts, us));
+          }
+        }
+      }
+    }
+  }
+  seeds
+}
+
 pub fn run(tier: &str, seed: u64) -> Report {
   let mut report = Report::new("C14");
   report.rule = "graphs: (a) built from generated worlds with forced redirect chains of 0..=13 hops and cycles of 2..=6, \
@@ -495,24 +525,7 @@ pub fn run(tier: &str, seed: u64) -> Report {
     cfg.chain = Some(1 + wi % 4);
     let mut wr = rng.fork();
     let w = gen_world(&mut wr, &cfg);
-    let is_plain_module = |i: usize| matches!(&w.resp[i], Resp::Module { final_spec, .. } if *final_spec == i);
-    let mut seeds: Vec<(String, String)> = vec![];
-    for r in &w.resp {
-      if let Resp::Redirect(t) = r {
-        if is_plain_module(*t) && wr.chance(1, 2) {
-          let cands: Vec<usize> = (0..w.specs.len()).filter(|u| *u != *t && is_plain_module(*u)).collect();
-          if !cands.is_empty() {
-            let u = cands[wr.below(cands.len())];
-            // no seed starts where another ends: a lockfile whose redirects form a cycle is a different
-            // input (section (b) covers every cyclic table; finding F11)
-            let (ts, us) = (w.specs[*t].to_string(), w.specs[u].to_string());
-            if !seeds.iter().any(|(a, b)| *a == ts || *a == us || *b == ts) {
-              seeds.push((ts, us));
-            }
-          }
-        }
-      }
-    }
+    let seeds = stale_seeds(&w, &mut wr);
     if seeds.is_empty() {
       continue;
     }
